@@ -31,6 +31,16 @@ def gen_case(rng):
             if rng.random() < 0.3:
                 t.setdefault(rng.choice(KEYS), ptree(rng, 2))
             trees.append(t or {"a": 1})
+    if rng.random() < 0.15:
+        # several lists with the same entries in mirrored / shuffled orders across the inputs (the migration must keep
+        # every input's own order in every list)
+        ents = rng.sample(["p", "q", "r", "s", {"n": 1}, {"n": 2}], rng.randint(2, 4))
+        names = rng.sample(["readOrder", "writeOrder", "thirdOrder", "zOrder"], rng.randint(2, 4))
+        for t in trees:
+            for name in names:
+                a = list(ents)
+                rng.shuffle(a)
+                t[name] = gen.deep(a)
     return {"inputs": trees, "fmts": [rng.choice(FMTS) for _ in trees]}
 
 
